@@ -10,8 +10,8 @@ the link drops, the outage length, the reconnect back-off) plus a vector of *dev
 (mc.explore.choice_vectors).  At every quiescent point of the exploration window the alternatives are: let the earliest
 timer overtake the oldest acknowledgement | deliver the next scripted engine event now | link down now (all in-flight
 sends fail) | link up now | lose the oldest acknowledgement | postpone the planned step.  All scenarios x all deviation
-vectors up to the bound are executed; every execution runs the real runner until it has been caught up and undisturbed
-for 6 virtual seconds (longer than the 5 s period of the runner's buffering loop) or to the 40 s horizon.
+vectors up to the bound are executed; every execution runs the real runner until it is caught up, undisturbed, and every
+timer that was pending when it became caught up has fired (a surviving 5 s buffering loop shows itself), or to the 40 s horizon.
 """
 from __future__ import annotations
 
@@ -42,7 +42,9 @@ META = dict(
 )
 
 HORIZON = 40.0
-SETTLE = 6.0          # undisturbed caught-up time after which an execution ends (> buffer_messages period of 5 s)
+SETTLE_EXTRA = 0.35   # an execution ends when the runner is caught up, every timer that was pending 0.7 s after it became
+                      # caught up has fired (this covers a surviving 5 s buffering loop or 9.9 s back-off sleep) and one more
+                      # steady-state cycle (0.3 s) has passed
 TAIL = 0.7            # deviations are offered until the runner has been caught up this long (two steady-state cycles)
 MAX_EPISODES = 2
 MAX_EVENTS_PER_EPISODE = 2
@@ -87,6 +89,7 @@ def execute(scn, ch, trace=None) -> dict:
     """Run one execution of scenario scn under chooser ch.  Returns the observation (plain data)."""
     plan = scn["plan"]
     outage = scn["outage"]
+    horizon = scn["horizon"]
     w = World(scn["backoff"])
     try:
         w.settle()
@@ -96,6 +99,8 @@ def execute(scn, ch, trace=None) -> dict:
         ev_while_down = 0
         t_down = None
         stable_since = None
+        settle_until = None
+        settled = False
         window = False
         stranded = None
         points = 0
@@ -104,7 +109,7 @@ def execute(scn, ch, trace=None) -> dict:
         while True:
             t = loop.time()
             st = runner.state
-            if t >= HORIZON:
+            if t >= horizon:
                 break
             if not window and t >= 0.3 and st == "Connected" and (pi >= len(plan) or plan[pi][0] == "down" or plan[pi][2] != "C"):
                 window = True
@@ -120,10 +125,17 @@ def execute(scn, ch, trace=None) -> dict:
                     stranded = (round(t, 3), st, w.buffer_mids())
                 if stable_since is None:
                     stable_since = t
-                elif t - stable_since >= SETTLE and not w.inflight:
-                    break
+                elif t - stable_since >= TAIL:
+                    if settle_until is None:
+                        # every timer pending now (e.g. a 5 s buffering loop or a 9.9 s back-off sleep that is still alive)
+                        # gets to fire, plus one more steady-state cycle
+                        settle_until = max(loop.pending_timers(), default=t) + SETTLE_EXTRA
+                    elif t > settle_until and not w.inflight:
+                        settled = True
+                        break
             else:
                 stable_since = None
+                settle_until = None
                 if st in CAUGHT_UP and episodes and runner._message_buffer and stranded is None:
                     stranded = (round(t, 3), st, w.buffer_mids())
             ordinary = "ack" if w.inflight else "timer"
@@ -200,7 +212,7 @@ def execute(scn, ch, trace=None) -> dict:
             "log": list(w.log), "kinds": list(b.kinds), "run_ids": list(b.run_ids),
             "seqs": [m.sequence_number for m in b.msgs],
             "final_state": runner.state, "final_buffer": w.buffer_mids(), "final_inflight": [x[0] for x in w.inflight],
-            "link_up": w.link_up, "settled": stable_since is not None and loop.time() - stable_since >= SETTLE,
+            "link_up": w.link_up, "settled": settled,
             "stranded": stranded, "t_end": round(loop.time(), 3), "episodes": episodes, "ev_while_down": ev_while_down,
             "plan_done": pi == len(plan), "points": points, "decisions": decisions, "steps": loop.steps,
         }
@@ -343,18 +355,27 @@ def check_exec(obs) -> list[tuple[str, str]]:
             d_ok = [x[0] for x in sends.get(d, []) if x[2] == "ok"]
             if d_ok and d_ok[0] < p_stop:
                 continue
-            # how the delivered stop got on the wire: sent at once by _post_async in state S, or from the buffer (catch-up batch)
             sp = posts.get(s, [])
             stop_state = sp[0][1] if sp else "?"            # state when the engine handed the stop notification over
-            stop_how = "stop-posted-" + ("while-buffering" if stop_state in BUFFERING else
-                                         "while-caught-up" if stop_state in CAUGHT_UP else "in-" + stop_state)
-            # and the data: never on the wire before the stop, or on the wire earlier but that attempt failed and it was re-queued
-            d_before = [x for x in sends.get(d, []) if x[0] < p_stop and x[0] > buffered[d][0][0]]
-            data_how = "data-attempt-failed-requeued-behind-stop" if d_before else "data-not-sent-before-stop"
-            out.append((f"C27:stop-before-buffered-data:{stop_how}:{data_how}",
-                        f"{name(s)} was delivered (put on the wire at log index {p_stop}, acknowledged) before {name(d)}, which was "
-                        f"buffered for the same run earlier (log index {buffered[d][0][0]}, {origin(d)}); attempts of the data message "
-                        f"after buffering: {[(x[0], x[2]) for x in sends.get(d, []) if x[0] > buffered[d][0][0]]}"))
+            posted = "stop-posted-" + ("while-buffering" if stop_state in BUFFERING else
+                                       "while-caught-up" if stop_state in CAUGHT_UP else "in-" + stop_state)
+            bs = [x[0] for x in buffered.get(s, []) if x[0] < p_stop]
+            bd = [x[0] for x in buffered[d] if x[0] < p_stop]
+            d_tried = [x for x in sends.get(d, []) if bd[0] < x[0] < p_stop]
+            if not bs:
+                # the delivered stop never went through the buffer although the data message was waiting in it
+                how = f"stop-bypassed-buffer:{posted}"
+            elif bd[-1] < bs[-1] and d_tried:
+                # both were buffered in production order and sent from the buffer; the data message's attempt failed by itself
+                how = "data-attempt-failed-requeued-behind-stop"
+            else:
+                # the stop got into the buffer ahead of the (older) data message
+                how = f"requeued-out-of-order:{posted}"
+            out.append((f"C27:stop-before-buffered-data:{how}",
+                        f"{name(s)} was delivered (put on the wire at log index {p_stop}, acknowledged) before {name(d)} of the same run; "
+                        f"the data message was buffered at log indices {[x[0] for x in buffered[d]]} ({origin(d)}), the stop at "
+                        f"{[x[0] for x in buffered.get(s, [])]} (handed over in state {stop_state}); attempts of the data message: "
+                        f"{[(x[0], x[2]) for x in sends.get(d, [])]}, of the stop: {[(x[0], x[2]) for x in sends.get(s, [])]}"))
             break
     return out
 
@@ -364,28 +385,53 @@ def check_exec(obs) -> list[tuple[str, str]]:
 
 def _scn(name, pre, k, during, outage, backoff, bound):
     plan = [("ev", e, "C") for e in pre] + [("down", k)] + [("ev", e, trig) for e, trig in during]
-    return {"name": name, "plan": plan, "outage": outage, "backoff": backoff, "bound": bound}
+    # virtual-time horizon: two outages with failed reconnects need several back-off periods
+    return {"name": name, "plan": plan, "outage": outage, "backoff": backoff, "bound": bound, "horizon": HORIZON if backoff < 1 else 90.0}
 
 
-RUNNING = ["start:r1", "tag"]
+RUNNING = ["start:r1", "tag"]          # delivered in state Connected before the outage: a run is in progress, one tag update sent
+OUTAGE_STATES = ("F", "D", "R", "U", "X")  # Failed, Disconnected, Reconnecting, CatchingUp, Reconnected (first quiescent point in it)
 
 
 def scenarios(quick: bool) -> list[dict]:
-    out = []
-    b = 2
-    for k in (0, 1, 2):
-        out.append(_scn(f"idle/k{k}", [], k, [], 1.0, 0.5, b))
-    for k in (0, 1, 3):
-        out.append(_scn(f"run:tag@D,stop@D/k{k}", RUNNING, k, [("tag", "D"), ("stop", "D")], 1.0, 0.5, b))
-        out.append(_scn(f"run:tag@F,stop@U/k{k}", RUNNING, k, [("tag", "F"), ("stop", "U")], 1.0, 0.5, b))
-    out.append(_scn("run:tag@F,stop@R/k0", RUNNING, 0, [("tag", "F"), ("stop", "R")], 1.0, 0.5, b))
-    out.append(_scn("run:tag@D,stop@X/k0", RUNNING, 0, [("tag", "D"), ("stop", "X")], 1.0, 0.5, b))
-    out.append(_scn("run:stop@U2/k1", RUNNING, 1, [("stop", "U2")], 1.0, 0.5, b))
-    out.append(_scn("idle:start@D,tag@D/k0", [], 0, [("start:r1", "D"), ("tag", "D")], 1.0, 0.5, b))
-    out.append(_scn("idle:start@F,stop@U/k0", [], 0, [("start:r1", "F"), ("stop", "U")], 1.0, 0.5, b))
-    out.append(_scn("run:stop@D,start2@D/k0", RUNNING, 0, [("stop", "D"), ("start:r2", "D")], 1.0, 0.5, b))
-    if not quick:
-        pass
+    """Simplest first.  name: <pre>:<event>@<trigger state>,.../k<sends in flight when the link drops>."""
+    deep = 2 if quick else 3
+    out = [
+        _scn("idle/k0", [], 0, [], 1.0, 0.5, deep),
+        _scn("idle/k1", [], 1, [], 1.0, 0.5, 2),
+        _scn("idle/k2", [], 2, [], 1.0, 0.5, deep),
+        _scn("run:tag@D,stop@D/k0", RUNNING, 0, [("tag", "D"), ("stop", "D")], 1.0, 0.5, deep),
+        _scn("run:tag@D,stop@D/k3", RUNNING, 3, [("tag", "D"), ("stop", "D")], 1.0, 0.5, 2),
+        _scn("run:tag@F,stop@U/k0", RUNNING, 0, [("tag", "F"), ("stop", "U")], 1.0, 0.5, 2),
+        _scn("run:tag@F,stop@U/k1", RUNNING, 1, [("tag", "F"), ("stop", "U")], 1.0, 0.5, deep),
+        _scn("run:tag@F,stop@R/k0", RUNNING, 0, [("tag", "F"), ("stop", "R")], 1.0, 0.5, 2),
+        _scn("run:tag@D,stop@X/k0", RUNNING, 0, [("tag", "D"), ("stop", "X")], 1.0, 0.5, 2),
+        _scn("run:stop@U2/k1", RUNNING, 1, [("stop", "U2")], 1.0, 0.5, 2),
+        _scn("idle:start@D,tag@D/k0", [], 0, [("start:r1", "D"), ("tag", "D")], 1.0, 0.5, 2),
+        _scn("run:stop@D,start2@D/k0", RUNNING, 0, [("stop", "D"), ("start:r2", "D")], 1.0, 0.5, 2),
+        # outage longer than the 5 s period of buffer_messages; slow and fast reconnect back-off
+        _scn("run:tag@D5,stop@D5/k0/outage6/backoff9.9", RUNNING, 0, [("tag", "D5"), ("stop", "D5")], 6.0, 9.9, 2),
+        _scn("run:tag@D,stop@U/k0/outage6/backoff0.5", RUNNING, 0, [("tag", "D"), ("stop", "U")], 6.0, 0.5, 2),
+    ]
+    if quick:
+        return out
+    have = {s["name"] for s in out}
+    order = {x: i for i, x in enumerate(OUTAGE_STATES)}
+    seqs = [(RUNNING, "run", ["tag", "stop"]), (RUNNING, "run", ["stop", "start:r2"]), (RUNNING, "run", ["stop"]), (RUNNING, "run", ["tag"]),
+            ([], "idle", ["start:r1", "tag"]), ([], "idle", ["start:r1", "stop"]), ([], "idle", ["start:r1"])]
+    for pre, pname, evs in seqs:
+        trigs = [(a,) for a in OUTAGE_STATES] if len(evs) == 1 else \
+                [(a, b) for a in OUTAGE_STATES for b in OUTAGE_STATES if order[a] <= order[b]]
+        for tr in trigs:
+            for k in ((0, 3) if pre else (0, 2)):
+                during = list(zip(evs, tr))
+                name = f"{pname}:" + ",".join(f"{e.replace('start:r', 'start')}@{t}" for e, t in during) + f"/k{k}"
+                if name not in have:
+                    have.add(name)
+                    out.append(_scn(name, pre, k, during, 1.0, 0.5, 2))
+    for k in (1, 3):
+        out.append(_scn(f"run:tag@D5,stop@U/k{k}/outage6/backoff9.9", RUNNING, k, [("tag", "D5"), ("stop", "U")], 6.0, 9.9, 2))
+        out.append(_scn(f"idle:start@D,tag@D5/k{k - 1}/outage6/backoff0.5", [], k - 1, [("start:r1", "D"), ("tag", "D5")], 6.0, 0.5, 2))
     return out
 
 
@@ -452,9 +498,10 @@ def explore_item(item):
         _tally(c, obs, found)
         for te in obs["task_errors"] or []:
             terr.add(tuple(te))
+        size = (sum(1 for x in full if x), len(full))
         for sig, what in found:
-            if sig not in viol:
-                viol[sig] = (sig, what, {"scenario": scn, "choices": full})
+            if sig not in viol or size < viol[sig][3]:
+                viol[sig] = (sig, what, {"scenario": scn, "choices": full}, size)
     return {"viol": list(viol.values()), "c": c, "task_errors": sorted(terr)[:5]}
 
 
@@ -470,7 +517,7 @@ def first_level(scn):
 
 
 def DETERMINISM_ITEMS(scns):
-    return [(scns[0], []), (scns[4], [0, 1]), (scns[2], [0, 0, 1, 1])]
+    return [(scns[0], []), (scns[5], [0, 1]), (scns[2], [0, 0, 1, 1])]
 
 
 def run(ctx):
@@ -490,13 +537,17 @@ def run(ctx):
     tot = new_counters()
     terr = set()
     per = {}
+    best: dict[str, tuple] = {}
     for (scn, prefix, _b), r in zip(items, results):
-        for sig, what, rp in r["viol"]:
-            ctx.violation(sig, what, rp)
+        for sig, what, rp, size in r["viol"]:
+            if sig not in best or tuple(size) < best[sig][0]:       # fewest deviations, shortest schedule, earliest scenario
+                best[sig] = (tuple(size), what, rp)
         for k in tot:
             tot[k] += r["c"][k]
         per[scn["name"]] = per.get(scn["name"], 0) + r["c"]["execs"]
         terr.update(tuple(x) for x in r["task_errors"])
+    for sig in sorted(best, key=lambda g: best[g][0]):
+        ctx.violation(sig, best[sig][1], best[sig][2])
     for bs in base:
         bs["executions"] = per[bs["scenario"]]
     if not tot["nontrivial"] or not tot["two_episodes"] or not tot["with_failed_attempt"] or not tot["caught_up_at_end"]:
@@ -516,7 +567,7 @@ def run(ctx):
         executions_with_task_exceptions=tot["with_task_errors"], task_exception_samples=[list(x) for x in sorted(terr)[:5]],
         violating_executions=tot["violating"],
         bounds=dict(max_link_down_episodes=MAX_EPISODES, max_events_per_episode=MAX_EVENTS_PER_EPISODE, horizon_s=HORIZON,
-                    settle_s=SETTLE, deviation_window_tail_s=TAIL),
+                    settle_extra_s=SETTLE_EXTRA, deviation_window_tail_s=TAIL),
         exhaustive=True,
         explanation="for every scenario the complete tree of deviation vectors up to the bound is executed (choice_vectors), "
                     "partitioned over workers by first deviation",
